@@ -12,6 +12,9 @@ package jsondb
 import (
 	"fmt"
 	"io"
+	"os"
+	"regexp"
+	"sort"
 	"strings"
 	"testing"
 
@@ -69,60 +72,93 @@ func TestVerifC18SaveCrash(t *testing.T) {
 	r := vh.New("save-crash-points")
 	defer r.Write()
 	defer func() { vos.FS = nil }()
-	for _, size := range []int{1, 5, 40} {
-		cfs, path, oldContent := c18Setup()
-		start := cfs.Len()
-		ns := c18Scanner("new", size)
-		if err := ns.SaveDatabase(path); err != nil {
-			r.Fail("SaveDatabase: %v", err)
-			return
+	// configurations: the plain one, and one per environment variable the store's source reads (found
+	// in the working tree at check time), set to a directory on ANOTHER file system of the model
+	type config struct{ name, env string }
+	configs := []config{{"default", ""}}
+	if src, err := os.ReadFile("json_store.go"); err == nil {
+		seenEnv := map[string]bool{}
+		for _, m := range regexp.MustCompile(`(?:Getenv|LookupEnv)\(\s*"([A-Za-z_][A-Za-z0-9_]*)"`).FindAllStringSubmatch(string(src), -1) {
+			seenEnv[m[1]] = true
 		}
-		newContent, _ := c18Read(cfs, path)
-		if newContent == oldContent || newContent == "" {
-			r.Fail("setup: new content not written")
-			return
+		// names given through a constant: const X = "NAME" ... Getenv(X)
+		for _, m := range regexp.MustCompile(`(?:Getenv|LookupEnv)\(\s*([A-Za-z_][A-Za-z0-9_]*)\s*\)`).FindAllStringSubmatch(string(src), -1) {
+			if c := regexp.MustCompile(`\b` + m[1] + `\s*(?:string\s*)?=\s*"([A-Za-z_][A-Za-z0-9_]*)"`).FindStringSubmatch(string(src)); c != nil {
+				seenEnv[c[1]] = true
+			}
 		}
-		log := cfs.Snapshot()
-		seen := map[string]bool{}
-		outcomes := map[string]int64{}
-		for k := start; k <= len(log); k++ {
-			imgs, _, err := crashfs.Images(log, k, 4, seen, "save", nil)
-			if err != nil {
-				r.Fail("images: %v", err)
+		for name := range seenEnv {
+			configs = append(configs, config{"env:" + name, name})
+		}
+		sort.Slice(configs[1:], func(i, j int) bool { return configs[1+i].name < configs[1+j].name })
+	}
+	r.Count("configurations", int64(len(configs)))
+	for _, cfg := range configs {
+		for _, size := range []int{1, 5, 40} {
+			cfs, path, oldContent := c18Setup()
+			cfs.MkdirAll(vos.OtherDevice+"/tmp", 0o755)
+			if cfg.env != "" {
+				os.Setenv(cfg.env, vos.OtherDevice+"/tmp")
+			}
+			start := cfs.Len()
+			ns := c18Scanner("new", size)
+			if err := ns.SaveDatabase(path); err != nil {
+				r.Fail("SaveDatabase: %v", err)
 				return
 			}
-			r.Count("crash_points", 1)
-			for _, im := range imgs {
-				r.Eval()
-				got, err := c18Read(im.FS, path)
-				opAt := "after the call returned"
-				if k < len(log) {
-					opAt = log[k].String()
+			newContent, _ := c18Read(cfs, path)
+			if newContent == oldContent || newContent == "" {
+				r.Fail("setup: new content not written")
+				return
+			}
+			log := cfs.Snapshot()
+			seen := map[string]bool{}
+			outcomes := map[string]int64{}
+			for k := start; k <= len(log); k++ {
+				imgs, _, err := crashfs.Images(log, k, 4, seen, "save", nil)
+				if err != nil {
+					r.Fail("images: %v", err)
+					return
 				}
-				key := fmt.Sprintf("save-crash/size=%d/%s", size, im.Variant)
-				switch {
-				case err != nil:
-					outcomes["missing"]++
-					r.Violate(key, fmt.Sprintf("crash before op #%d %s (%s): the database file no longer exists: %v", k, opAt, im.Variant, err), map[string]interface{}{"size": size, "k": k})
-				case got == oldContent:
-					outcomes["old"]++
-				case got == newContent:
-					outcomes["new"]++
-				default:
-					outcomes["torn"]++
-					r.Violate(key, fmt.Sprintf("crash before op #%d %s (%s): the database file holds neither the old nor the new version (%d bytes; old %d, new %d)", k, opAt, im.Variant, len(got), len(oldContent), len(newContent)), map[string]interface{}{"size": size, "k": k})
+				r.Count("crash_points", 1)
+				for _, im := range imgs {
+					r.Eval()
+					got, err := c18Read(im.FS, path)
+					opAt := "after the call returned"
+					if k < len(log) {
+						opAt = log[k].String()
+					}
+					key := fmt.Sprintf("save-crash/size=%d/%s", size, im.Variant)
+					if cfg.env != "" {
+						key += "/" + cfg.name
+					}
+					switch {
+					case err != nil:
+						outcomes["missing"]++
+						r.Violate(key, fmt.Sprintf("crash before op #%d %s (%s): the database file no longer exists: %v", k, opAt, im.Variant, err), map[string]interface{}{"size": size, "k": k})
+					case got == oldContent:
+						outcomes["old"]++
+					case got == newContent:
+						outcomes["new"]++
+					default:
+						outcomes["torn"]++
+						r.Violate(key, fmt.Sprintf("crash before op #%d %s (%s): the database file holds neither the old nor the new version (%d bytes; old %d, new %d)", k, opAt, im.Variant, len(got), len(oldContent), len(newContent)), map[string]interface{}{"size": size, "k": k})
+					}
+					r.Nontrivial(fmt.Sprintf("%d|%s", size, im.Hash))
 				}
-				r.Nontrivial(fmt.Sprintf("%d|%s", size, im.Hash))
+			}
+			for k, v := range outcomes {
+				r.Count("image_holds/"+k, v)
+			}
+			var ops []string
+			for _, o := range log[start:] {
+				ops = append(ops, o.String())
+			}
+			r.Sample(map[string]interface{}{"configuration": cfg.name, "signatures_saved": size, "file_operations_of_one_save": ops})
+			if cfg.env != "" {
+				os.Unsetenv(cfg.env)
 			}
 		}
-		for k, v := range outcomes {
-			r.Count("image_holds/"+k, v)
-		}
-		var ops []string
-		for _, o := range log[start:] {
-			ops = append(ops, o.String())
-		}
-		r.Sample(map[string]interface{}{"signatures_saved": size, "file_operations_of_one_save": ops})
 	}
 }
 
